@@ -129,7 +129,10 @@ enum P {
 }
 
 struct Grammar {
+    /// `base[..enumerated]` are the base terms of the grammar; the rest are pipe stages of
+    /// composite base terms (attribution only)
     base: Vec<String>,
+    enumerated: usize,
     /// environment dependent: observed at depth 1, never judged
     env: Vec<bool>,
     /// judged at depth 1 only
@@ -143,6 +146,40 @@ struct Grammar {
 
 fn is_env(t: &str) -> bool {
     ENV_MARKERS.iter().any(|m| t.contains(m))
+}
+
+/// Split `a | rest` at the first top-level pipe, unless `a` binds names that `rest` may use.
+fn split_first_pipe(t: &str) -> Option<(String, String)> {
+    let mut depth = 0i32;
+    let mut in_str = false;
+    let b = t.as_bytes();
+    let mut i = 0;
+    while i < b.len() {
+        let c = b[i];
+        if in_str {
+            if c == b'\\' {
+                i += 1;
+            } else if c == b'"' {
+                in_str = false;
+            }
+        } else {
+            match c {
+                b'"' => in_str = true,
+                b'(' | b'[' | b'{' => depth += 1,
+                b')' | b']' | b'}' => depth -= 1,
+                b'|' if depth == 0 && b.get(i + 1) != Some(&b'=') => {
+                    let (a, r) = (t[..i].trim(), t[i + 1..].trim());
+                    if a.contains(" as ") || a.starts_with("label ") || a.starts_with("def ") || a.is_empty() || r.is_empty() {
+                        return None;
+                    }
+                    return Some((a.to_string(), r.to_string()));
+                }
+                _ => {}
+            }
+        }
+        i += 1;
+    }
+    None
 }
 
 /// Does the first top-level pipe segment consist of a literal only?
@@ -229,12 +266,25 @@ impl Grammar {
                 base.push(c.to_string());
             }
         }
+        // hidden terms: the pipe stages of composite base terms, used only by the attribution
+        let enumerated = base.len();
+        let mut i = 0;
+        while i < base.len() {
+            if let Some((a, b)) = split_first_pipe(&base[i]) {
+                for seg in [a, b] {
+                    if !base.iter().any(|x| *x == seg) {
+                        base.push(seg);
+                    }
+                }
+            }
+            i += 1;
+        }
         let env: Vec<bool> = base.iter().map(|t| is_env(t)).collect();
         let solo: Vec<bool> = base.iter().map(|t| SOLO.contains(&t.as_str())).collect();
         let literal_fed: Vec<bool> = base.iter().map(|t| is_literal_fed(t)).collect();
         let primary: Vec<bool> = (0..base.len()).map(|i| i < nprimary && !env[i] && !solo[i] && !literal_fed[i]).collect();
         let core = CORE.iter().map(|c| base.iter().position(|b| b == c).unwrap_or_else(|| panic!("core term {c} not in base")) as u32).collect();
-        Grammar { base, env, solo, literal_fed, primary, core }
+        Grammar { base, enumerated, env, solo, literal_fed, primary, core }
     }
     fn text(&self, p: &P) -> String {
         match p {
@@ -405,7 +455,7 @@ fn head_of(t: &str, last: bool) -> String {
 }
 
 fn programs(g: &Grammar, ctx: &Ctx) -> Vec<P> {
-    let n = g.base.len() as u32;
+    let n = g.enumerated as u32;
     let mut out: Vec<P> = (0..n).map(P::B).collect();
     let judged: Vec<u32> = (0..n).filter(|&i| !g.env[i as usize] && !g.solo[i as usize]).collect();
     if std::env::var("C23_DEPTH1").is_ok() {
@@ -582,7 +632,25 @@ fn attribute(g: &Grammar, p: &P, input: &str, fuel: u32) -> (P, String) {
         return (p.clone(), input.to_string());
     }
     match p {
-        P::B(_) => (p.clone(), input.to_string()),
+        P::B(i) => match split_first_pipe(&g.base[*i as usize]) {
+            // a composite base term is attributed like the pipe it is
+            Some((a, b)) => {
+                let find = |t: &str| g.base.iter().position(|x| x == t).map(|k| P::B(k as u32));
+                match (find(&a), find(&b)) {
+                    (Some(pa), Some(pb)) => {
+                        let (m, y) = attribute(g, &P::Pipe(Box::new(pa), Box::new(pb)), input, fuel - 1);
+                        // nothing narrower than the whole term: keep the term itself
+                        if g.text(&m) == g.text(p) {
+                            (p.clone(), input.to_string())
+                        } else {
+                            (m, y)
+                        }
+                    }
+                    _ => (p.clone(), input.to_string()),
+                }
+            }
+            None => (p.clone(), input.to_string()),
+        },
         P::Pipe(a, b) => {
             if disagrees(g, a, input) {
                 return attribute(g, a, input, fuel - 1);
@@ -713,6 +781,9 @@ fn check_program(g: &Grammar, p: &P, rep: &mut Report, stats: &mut Stats) {
                 // distinct + non-trivial: an agreed observation that is not "no output, normal end"
                 if !o.outs.is_empty() || o.term != Term::End {
                     rep.distinct(&o);
+                    if !o.outs.is_empty() && h64(&(text.as_str(), input)) % 40_009 == 0 {
+                        rep.sample(|| json!({"program": text, "input": input, "both_evaluators": {"outputs": o.outs, "terminal": o.term.show()}}));
+                    }
                 }
             }
             Verdict::Presentation(k) => {
@@ -813,8 +884,8 @@ fn explore(ctx: &Ctx, rep: &mut Report) {
     rep.merge(r);
     let t = total.into_inner().unwrap();
     rep.extra.insert("programs".into(), json!(progs.len()));
-    rep.extra.insert("base_terms".into(), json!(g.base.len()));
-    rep.extra.insert("base_terms_env_dependent_not_judged".into(), json!(g.env.iter().filter(|&&e| e).count()));
+    rep.extra.insert("base_terms".into(), json!(g.enumerated));
+    rep.extra.insert("base_terms_env_dependent_not_judged".into(), json!(g.env[..g.enumerated].iter().filter(|&&e| e).count()));
     rep.extra.insert("contexts".into(), json!(CONTEXTS.iter().map(|c| c.0).collect::<Vec<_>>()));
     rep.extra.insert("core_terms_depth3".into(), json!(g.core.len()));
     rep.extra.insert("inputs".into(), json!(INPUTS));
